@@ -514,12 +514,24 @@ def data_case(case):
     fake = Fake()
     ppg = new_ppg(fake)
     viol, o1, i1 = step(fake, ppg, 'set_data', (data, start, chs))
+    v1n = len(viol)
     nblocks = fake.stats['blocks']
+    sent = list(fake.log)
     v2, o2, i2 = step(fake, ppg, 'get_data', (L, start, chs))
     viol += v2
+    ndry = 0
+    if L % BLOCK in (0, 1, BLOCK - 1) or L <= 2 or L > 2100:      # dry-run mode at the block boundaries
+        lines, dexc, dnw, dissues = dry_run('set_data', (data, start, chs))
+        ndry = len(lines)
+        have = {k for k, _ in viol}
+        viol += [('dry-run:' + k, m) for k, m in dissues if k not in have]
+        if dexc:
+            viol.append((f'dry-run:{dexc[1]}:raises-{dexc[0]}', f'dry-run set_data(<{L} bits>, {start}, {chs!r}) raised {dexc[0]}: {dexc[2]}'))
+        elif not i1['exc'] and not v1n and lines != sent:
+            viol.append(('dry-run:stream-differs', f'set_data(<{L} bits>, {start}, {chs!r}): {len(lines)} printed lines differ from the {len(sent)} commands sent'))
     obs = (o1[1:], o2[1:], len(fake.log), tuple(c[:40] for c in fake.log[:2]), tuple(c[:40] for c in fake.log[-2:]))
     return res(viol=_dedup(viol), obs=obs, nontrivial=bool(L > BLOCK or start != 1),
-               stats={'transitions': 2, 'commands': len(fake.log), 'blocks': nblocks, 'reads': fake.stats['reads'],
+               stats={'transitions': 2, 'commands': len(fake.log), 'dry_run_lines': ndry, 'blocks': nblocks, 'reads': fake.stats['reads'],
                       'zero_len_reads': fake.stats['zero_len_reads'], 'bits_written': L * nrows,
                       'oor_calls': int(i1['oor']) + int(i2['oor'])})
 
